@@ -25,6 +25,8 @@ func fixedScenarios() []*Scenario {
 			Reqs: []Rel{{Kind: "H", J: 1}, {Kind: "D"}, {Kind: "D"}}, Rounds: []Round{{Trig: 0, CancelAt: -1}, {Trig: 1, CancelAt: -1}}},
 		// nothing registered at all
 		{},
+		// an OnReady hook that does not come back must not hold up anything
+		{Metrics: true, Starts: []int{bOK}, Readies: []int{bBlock, bOK, bBlock}, Shuts: []int{bOK}, Stops: []int{bOK}, Reqs: []Rel{{Kind: "D"}}},
 		// signal during start-up, hook succeeds: straight into the shutdown sequence
 		{Metrics: true, Starts: []int{bCancelOK, bOK}, Readies: []int{bOK}, Shuts: []int{bOK}, Stops: []int{bOK}},
 		// signal while an OnStart hook waits for its context
@@ -86,7 +88,7 @@ func genScenario(r *hx.Rand, tier string) *Scenario {
 		sc.Listen = lCert
 	}
 	sc.Starts = genHooks(r, []int{bOK, bErr, bPanic, bBlock, bCancelOK}, []int{84, 5, 2, 4, 5})
-	sc.Readies = genHooks(r, []int{bOK, bPanic}, []int{85, 15})
+	sc.Readies = genHooks(r, []int{bOK, bPanic, bBlock}, []int{76, 13, 11})
 	sc.NReload = pickW(r, []int{0, 1, 2, 3}, []int{3, 3, 3, 2})
 	sc.Shuts = genHooks(r, []int{bOK, bPanic, bBlock}, []int{86, 4, 10})
 	sc.Stops = genHooks(r, []int{bOK, bPanic}, []int{75, 25})
@@ -129,6 +131,20 @@ func genScenario(r *hx.Rand, tier string) *Scenario {
 			if sc.NReload > 0 && a.Trig == 0 && b.Trig == 0 && a.CancelAt < 0 && b.CancelAt < 0 && r.Chance(1, 4) {
 				a.Pair = true
 				i++
+			}
+		}
+	}
+	// Scenarios that use the process-wide SIGHUP (or read goroutine dumps) run one after the other; most of
+	// them get no wait for the 1 s deadline, or the serial phase alone would exhaust the quick budget.
+	if sc.needsSerial() && r.Chance(3, 4) {
+		for i, b := range sc.Shuts {
+			if b == bBlock {
+				sc.Shuts[i] = bOK
+			}
+		}
+		for i, q := range sc.Reqs {
+			if q.Kind == "N" || (q.Kind == "H" && q.J >= len(sc.Shuts)) {
+				sc.Reqs[i] = Rel{Kind: "D"}
 			}
 		}
 	}
